@@ -23,6 +23,7 @@ def instances(tier):
     for p in (31, 32): out.append(Inst('c16', 'h_c16_v4_small_prefix_not_iterable', params=(p,), unwind=6, timeout=120))
     for p in ((0, 1, 7, 8, 9, 63, 64, 65, 120, 127, 128) if q else range(129)): out.append(Inst('c16', 'h_c16_v6_prefix', params=(p,), unwind=18, timeout=300))
     for k in (range(0, 4) if q else range(0, 9)): out.append(Inst('c16', 'h_c16_v6_iter', params=(k,), unwind=18, timeout=600))
+    for k in (4, 6): out += [Inst('c16', 'h_c16_v6_iter_carry', params=(k,), unwind=18, timeout=600), Inst('c16', 'h_c16_hw_iter_carry', params=(k,), unwind=12, timeout=600)]
     for p in range(49): out.append(Inst('c16', 'h_c16_hw_prefix', params=(p,), unwind=8, timeout=120))
     out.append(Inst('c16', 'h_c16_hw_text_roundtrip', unwind=20, timeout=600))
     for n in ((0, 1, 2, 3, 5, 17) if q else range(18)): out.append(Inst('c16', 'h_c16_hw_parse_any', params=(n,), unwind=20, timeout=600, accept=None))
